@@ -211,6 +211,10 @@ func (p *c16prop) Gen(kind string, idx int64, seed int64, tier string) core.Case
 			// refilled by readers that offer more than 64 KiB at once
 			c = gen.SmallCfg(r, typ, gen.Opts{})
 			c.BufferSize = []int{65000, 65536, 65537, 100000, 200000, 0, 0}[idx%7]
+			if idx%7 == 2 || r.Intn(4) == 0 {
+				// every size around the first capacity step of ReadFrom
+				c.BufferSize = 1<<16 + r.Intn(19) - 9
+			}
 			c.ShrinkSize = 0
 			c.WindowSize = []int{0, 32768, 65536, 1 << 20}[r.Intn(4)]
 			c.BlockSize = []int{0, 4096, 65536, 100000}[r.Intn(4)]
@@ -227,6 +231,10 @@ func (p *c16prop) Gen(kind string, idx int64, seed int64, tier string) core.Case
 				{K: "readfrom", A: 1, B: 10}, {K: "parse"}, {K: "parse", A: 1}, {K: "shrink"}, {K: "readfrom", A: 0, B: 70000}, {K: "parse"}, {K: "readfrom", A: 1, B: 0}}
 			for i := 0; i < 12; i++ {
 				ops = append(ops, POp{K: "parse", A: r.Intn(2)})
+			}
+			if r.Intn(2) == 0 {
+				// one big read first: everything the buffer takes at once
+				ops = append([]POp{{K: "readfrom", A: 1, B: 10, Steps: []RStep{{N: 1 << 20, Err: r.Intn(3)}}}, {K: "parse"}, {K: "parse", A: 1}, {K: "shrink"}}, ops...)
 			}
 			pc = PCase{Cfg: c, Stream: stream, Ops: ops}
 		} else if class == "mid" {
